@@ -65,7 +65,11 @@ func ZZH_C13_single_key() {
 		k = 4
 	}
 	for step := 0; step < k; step++ {
-		switch zz.Choice("op", 7) {
+		switch zz.Choice("op", 8) {
+		case 7: // a write that is reverted at once (a failing transaction): snapshot, SetState, revert
+			id := l.Snapshot()
+			l.SetState(addr, key, zzValue("tv"), nil)
+			l.RevertToSnapshot(id)
 		case 0: // SetState
 			v := zzValue("v")
 			l.SetState(addr, key, v, nil)
@@ -152,7 +156,18 @@ func ZZH_C13_account_fields() {
 		k = 4
 	}
 	for step := 0; step < k; step++ {
-		switch zz.Choice("op", 9) {
+		switch zz.Choice("op", 10) {
+		case 9: // a write that is reverted at once (failing transaction): snapshot, write, revert
+			id := l.Snapshot()
+			switch zz.Choice("transient", 3) {
+			case 0:
+				l.SetBalance(addr, new(big.Int).SetUint64(zz.U64i("tbal")))
+			case 1:
+				l.SetNonce(addr, zz.U64("tnonce"))
+			default:
+				l.SetCode(addr, []byte{zz.U8("tcode")})
+			}
+			l.RevertToSnapshot(id)
 		case 7: // credit through the account object (EVM value transfer path)
 			v := zz.U64i("credit")
 			zz.Assume(v < 1<<62 && m.bal < 1<<62)
